@@ -31,7 +31,7 @@ def existing(files):
 def run_translator(ctx):
     env = dict(os.environ)
     env["VERIF_REPO"] = vlib.REPO
-    with vlib.Lock(os.path.join(vlib.WORK, "coq.lock")):
+    with vlib.Lock(os.path.join(vlib.WORK, "eval-coq.lock")):
         rc, out = vlib.sh([sys.executable, os.path.join(ROOT, "translators", "tr_evalrules.py")], env=env, timeout=300)
     if rc != 0:
         ctx.broken.append({"kind": "translator", "name": "tr_evalrules",
@@ -56,7 +56,7 @@ def build_coq(ctx, files, record_as=None):
     """compile (in the given order) every file whose .vo is older than the source or than the .vo of
     one of its SE dependencies.  Returns the list of files that failed."""
     failed = []
-    with vlib.Lock(os.path.join(vlib.WORK, "coq.lock")):
+    with vlib.Lock(os.path.join(vlib.WORK, "eval-coq.lock")):
         for f in files:
             src = os.path.join(COQ, f)
             vo = src[:-2] + ".vo"
@@ -113,13 +113,24 @@ def build_model(ctx):
 
 def prepare(ctx, obligations):
     """translator, Coq build, gate, proofs, driver, model.  Returns (driver, model)."""
+    import time
+    t = [time.time()]
+
+    def lap(name):
+        t.append(time.time())
+        ctx.notes.append("stage %s: %.1fs" % (name, t[-1] - t[-2]))
     run_translator(ctx)
+    lap("translate")
     build_coq(ctx, existing(EVAL_MODEL), record_as="correspondence")
     build_coq(ctx, existing(EVAL_PROOFS))
+    lap("coq-build")
     ctx.gate(["Base", "Eval", "C12", "C13"])
     ctx.prove([], existing(obligations))
+    lap("obligations")
     drv = ctx.build_driver("eval_driver")
+    lap("driver")
     model = build_model(ctx)
+    lap("model")
     return drv, model
 
 
@@ -188,7 +199,7 @@ def gen_num(rng, depth):
     if r < 0.48:
         e = rng.choice(["(i 2)", "(i 3)", "(i -1)", "(i -2)", "(q 1 2)", "(q -1 2)", "(q 1 3)", "(q 3 2)", "(i 10)"])
         if rng.random() < 0.25:
-            e = gen_num(rng, depth - 2)
+            e = rng.choice(CONSTS + RATS[:10] + ["(f1 sin (i 1))", "(add pi (q 1 3))", "(neg E)"])
         b = rng.choice(["E", "E", gen_num(rng, depth - 1), gen_num(rng, depth - 1)])
         return "(pow %s %s)" % (b, e)
     if r < 0.55:
@@ -320,20 +331,27 @@ def gen_history(rng, tier):
 
 
 def split_history(line):
-    """driver output -> (list of op input parts, list of op results, oracle text)"""
+    """driver output -> (op input parts, op results, oracle text).  A result is followed by "~" when the
+    driver starts oracle work (fresh objects ...) and by "." when that work is done: a crash after "~"
+    is not the visitor's, the history just ends there."""
     body, _, oracle = line.partition("\t#ORACLE:")
-    tail = ""
-    m = re.search(r"(CRASH:\d+|HANG)$", body)
+    died = re.search(r"(CRASH:\d+|HANG|DIED)$", body)
+    if died:
+        body = body[:died.start()]
     ins, outs = [], []
     for op in body.split(" || "):
         if " => " in op:
             a, b = op.split(" => ", 1)
             ins.append(a)
             outs.append(b)
-        else:
+        elif op.strip():
             ins.append(op)
             outs.append("")
-    if m and outs:
-        # the process died during the last op
-        outs[-1] = "CRASH"
+    if outs:
+        last = outs[-1]
+        if died and "~" in last and not last.endswith("."):
+            outs[-1] = last.split("~")[0]          # died during oracle work
+        elif died:
+            outs[-1] = "CRASH" if died.group(1) != "HANG" else "HANG"
+    outs = [o.split("~")[0] for o in outs]
     return ins, outs, oracle.strip()
